@@ -65,16 +65,16 @@ macro_rules! vk_c02_alloc {
     };
 }
 
-// VK: prop=C02 tier=quick cap=600
+// VK: prop=C02 tier=quick cap=900
 // VK-funcs: StreamIdSet::allocate (via hook StreamIds)
 // VK-bounds: bitmap of 512 blocks: blocks before b=0 full, block b any u64 != all-ones, block b+1 and last block any u64; symbolic probe id; unwind 514 (512 blocks)
 // VK-out: ResponseHandlerMap / router / orphaner tasks / channels: the delivery clause and all schedule quantifiers of C02 are not decided (HashMap + tokio, not encodable)
 vk_c02_alloc!(c02_alloc_b0, 0);
-// VK: prop=C02 tier=quick cap=600
+// VK: prop=C02 tier=thorough cap=1800
 // VK-funcs: StreamIdSet::allocate
 // VK-bounds: as c02_alloc_b0 with b=1
 vk_c02_alloc!(c02_alloc_b1, 1);
-// VK: prop=C02 tier=quick cap=900
+// VK: prop=C02 tier=thorough cap=1800
 // VK-funcs: StreamIdSet::allocate
 // VK-bounds: as c02_alloc_b0 with b=255
 vk_c02_alloc!(c02_alloc_b255, 255);
@@ -91,7 +91,7 @@ vk_c02_alloc!(c02_alloc_b256, 256);
 // VK-bounds: as c02_alloc_b0 with b=510
 vk_c02_alloc!(c02_alloc_b510, 510);
 
-// VK: prop=C02 tier=quick cap=900
+// VK: prop=C02 tier=thorough cap=1800
 // VK-funcs: StreamIdSet::{new,allocate}
 // VK-bounds: exhausted id space (all 32768 bits set): allocate returns None and changes nothing; fresh set: first id is 0; unwind 514
 #[kani::proof]
